@@ -53,6 +53,7 @@ func (s *Weighted) acquire(ctx context.Context, mu *sync.Mutex, n int) error {
 	select {
 	case <-ctx.Done():
 		err := ctx.Err()
+		verifGate("semap.cancel")
 		mu.Lock()
 		select {
 		case <-ready:
